@@ -284,6 +284,12 @@ def gen_cases(rng, proxy, port, dirlen, n, focus):
                 one(b"CONNECT h:1\r\n\r\n", (), e_)
             b_ = b"CONNECT h:" + P + b"\r\n\r\n"
             one(b_ + b"RFB 003.008\n", (len(b_),), "half")
+            # the application's newClientHook refuses the proxied client: one teardown, one close
+            g_ = ["hook refuse"]
+            for rq_ in (b_, b"GET /proxied.connection HTTP/1.0\r\n\r\n"):
+                g_ += [Case(rq_ + b"RFB 003.008\n", (len(rq_),), "keep"), Case(rq_, (), "keep"), Case(rq_, (), "half"),
+                       Case(rq_, (), "full"), Case(b"GET /a.txt\n\n")]
+            groups.append(g_ + ["hook accept", Case(b_ + b"RFB 003.008\n", (len(b_),), "keep")])
         return groups
     if focus == "fname":
         # the name written behind httpDir in fullFname[512]: every name length around the room that is left,
@@ -401,9 +407,9 @@ def gen_cases(rng, proxy, port, dirlen, n, focus):
     return groups
 
 
-def build_script(rng, proxy, port, dirlen, listener, groups):
+def build_script(rng, proxy, port, dirlen, listener, groups, boot=None):
     files, dirs = sandbox(rng)
-    lines = setup_lines(dirlen, listener, files, dirs) + ["cfg %d %d" % (proxy, port)]
+    lines = (["boot " + boot] if boot else []) + setup_lines(dirlen, listener, files, dirs) + ["cfg %d %d" % (proxy, port)]
     meta = [None] * len(lines)
     for g in groups:
         for i, c in enumerate(g):
@@ -571,6 +577,9 @@ def oracle(sc, impl):
             env["desktop"], env["user"] = unhx(t[1]), (None if t[2] == "none" else unhx(t[2]))
         if t[0] == "cfg":
             proxy = int(t[1])
+        if t[0] == "dir" and "sigpipe=" in ob and "sigpipe=ign" not in ob:
+            return ("op %d: the HTTP server is accepting connections while SIGPIPE is not ignored (%s): the first "
+                    "peer that goes away during a reply kills the process" % (i, ob))
         if "rfb=dead" in ob:
             return "op %d: the concurrently connected RFB client is no longer served after %r" % (i, op[:80])
         if t[0] != "req":
@@ -578,6 +587,10 @@ def oracle(sc, impl):
         if ob in ("bad-op", "no-conn", "short-write"):
             return "op %d: harness could not run the request: %s" % (i, ob)
         d = parse_ob(ob)
+        if d.get("badclose", "0") != "0":
+            return ("op %d: while this request was served the server called close() %s time(s) on a descriptor "
+                    "that is not open (a socket closed twice: the number may meanwhile belong to somebody else)"
+                    % (i, d["badclose"]))
         if d.get("leak", "0") != "0":
             return ("op %d: %s descriptor(s) still open after the request was finished (beyond the live HTTP "
                     "connection): every such request costs the server process a file descriptor" % (i, d["leak"]))
@@ -615,7 +628,8 @@ def oracle(sc, impl):
         if vg is None and terminator_seen(whole):
             vg = valid_get(whole)
         is_proxy_answer = int(d["len"]) >= len(PROXY_OK) and d["conn"] == "handed" or \
-            (int(d["len"]) == len(PROXY_OK) and int(d["hash"], 16) == fnv(PROXY_OK))
+            (int(d["len"]) == len(PROXY_OK) and int(d["hash"], 16) == fnv(PROXY_OK)) or \
+            (int(d["len"]) == len(PROXY_OK) + 12 and int(d["hash"], 16) == fnv(PROXY_OK + b"RFB 003.008\n"))
         if is_proxy_answer and not proxy:
             return "op %d: proxy request honoured although proxy support is off" % i
         if is_proxy_answer:
@@ -826,7 +840,10 @@ def _run(ctx, env):
             port = rng.choice([5900, 5900, 5901, 0, -1, 65535, 80])
             groups = gen_cases(rng, proxy, port, dl, 90 if quick else 160, focus)
             rng.shuffle(groups)
-            sc = build_script(rng, proxy, port, dl, rng.choice([4, 6]), groups)
+            # start-up variant: default screen, or through rfbInitServer with the RFB port occupied (rfbInitSockets
+            # leaves early, the HTTP server comes up all the same); deterministic for the abandoned downloads
+            boot = "busy" if focus == "abandon" else rng.choice([None, None, "plain", "busy"])
+            sc = build_script(rng, proxy, port, dl, rng.choice([4, 6]), groups, boot)
             sc["origin"] = "gen:%s" % focus
             scripts.append(sc)
 
